@@ -456,7 +456,7 @@ def _parse_label(label):
     return out[0], out[1], ok
 
 
-class NonTermination(Exception):
+class NonTermination(BaseException):   # not an Exception: per-call handlers must not swallow the alarm
     """the implementation did not answer within the per-case time limit (a loop that does not terminate)"""
 
 
